@@ -458,3 +458,35 @@ Fixpoint bad_from (n : N) (l : list N) : list (N * N) :=
   | v :: r => if N.eqb v 0 then bad_from (n + 1) r else (n, v) :: bad_from (n + 1) r
   end.
 Definition bad (l : list N) : list (N * N) := bad_from 0 l.
+
+(* ------------------------------------------------------------------ C33: snapshots over ticks *)
+
+Inductive mono_kind := MonoSingle | MonoKeys | MonoValue | BoundedVal.
+
+Definition vle_b (a b : val) : bool :=
+  match a, b with VN x, VN y => N.leb x y | _, _ => veqb a b end.
+
+(* relation promised between the snapshot of one tick and the snapshot of the next one *)
+Definition snap_rel_b (k : mono_kind) (a b : list val) : bool :=
+  match k with
+  | MonoSingle =>
+      match a, b with [x], [y] => vle_b x y | _, _ => false end
+  | MonoKeys =>
+      forallb (fun e => match klookup (vfst e) (entries_map b) with Some _ => true | None => false end) a
+  | MonoValue =>
+      forallb (fun e => match klookup (vfst e) (entries_map b) with Some w => vle_b (vsnd e) w | None => false end) a
+  | BoundedVal =>
+      forallb (fun e => match klookup (vfst e) (entries_map b) with Some w => veqb (vsnd e) w | None => false end) a
+  end.
+
+Fixpoint adj_all (R : list val -> list val -> bool) (l : list (list val)) : bool :=
+  match l with
+  | a :: ((b :: _) as r) => R a b && adj_all R r
+  | _ => true
+  end.
+
+Definition C33_holds_b (k : mono_kind) (impl : list (list val)) : bool := adj_all (snap_rel_b k) impl.
+
+Definition chk33 (k : mono_kind) (f : flow) (ticks : list (list (list val))) (impl : list (list val)) : N :=
+  let bs := map mkenv ticks in
+  verdict (ticks_agree (flow_exact f) impl (flow_run f bs)) (C33_holds_b k impl).
